@@ -364,6 +364,19 @@ fn noop_main(_env: &mut VEnv, _args: Vec<Field>) -> BuiltinFuture<'_> {
     Box::pin(async move { ExitStatus::SUCCESS.into() })
 }
 
+fn jobs_builtin_main(env: &mut VEnv, args: Vec<Field>) -> BuiltinFuture<'_> {
+    Box::pin(yash_builtin::jobs::main(env, args))
+}
+
+fn wait_builtin_main(env: &mut VEnv, args: Vec<Field>) -> BuiltinFuture<'_> {
+    Box::pin(yash_builtin::wait::main(env, args))
+}
+
+/// an argument that goes through the shell's parser unquoted
+fn safe_arg(a: &str) -> bool {
+    !a.is_empty() && a.chars().all(|c| c.is_ascii_alphanumeric() || "%-+".contains(c))
+}
+
 /// An environment on a `VirtualSystem` with an executor for child processes.  The job list of
 /// the case is moved into `env.jobs` for the duration of one built-in.
 struct World {
@@ -400,6 +413,8 @@ impl World {
         for n in NAMES {
             env.builtins.insert(n, Builtin::new(Type::Mandatory, noop_main));
         }
+        env.builtins.insert("jobs", Builtin::new(Type::Mandatory, jobs_builtin_main));
+        env.builtins.insert("wait", Builtin::new(Type::Mandatory, wait_builtin_main));
         // the standard input of an asynchronous command without job control
         yverif::shell::write_file(&state, "/dev/null", b"");
         World { env, system, state, executor, shell_pid, out_len: 0, err_len: 0 }
@@ -1145,6 +1160,84 @@ fn run_case(case: &str) -> (String, String, String) {
                 }
                 "-".into()
             }
+            ["promptx", m, i] => {
+                // the prompt report with standard error closed: the write fails, so no job is marked as reported
+                // (it is reported at the next prompt) and nothing is removed
+                let (Some(m), Some(inter)) = (parse_bool(m), parse_bool(i)) else {
+                    return ("bad-case".into(), "-".into(), String::new());
+                };
+                let wd = world.get_or_insert_with(World::new);
+                let before_list = l.clone();
+                wd.env.options.set(Monitor, if m { On } else { Off });
+                wd.env.options.set(Interactive, if inter { On } else { Off });
+                wd.env.jobs = std::mem::take(&mut l);
+                let shell = wd.shell_pid;
+                let saved = wd.state.borrow_mut().processes.get_mut(&shell).and_then(|p| p.close_fd(yash_env::io::Fd::STDERR));
+                let line = wd.drive(&mut |_| (), |env| {
+                    Box::pin(async move {
+                        use yash_env::input::Input as _;
+                        let cell = RefCell::new(env);
+                        let mut reporter =
+                            yash_env::input::Reporter::new(yash_env::input::Memory::new("echo\n"), &cell);
+                        reporter.next_line(&yash_env::input::Context::default()).await
+                    })
+                });
+                if let Some(body) = saved {
+                    if let Some(p) = wd.state.borrow_mut().processes.get_mut(&shell) {
+                        let _ = p.set_fd(yash_env::io::Fd::STDERR, body);
+                    }
+                }
+                let (_, stderr) = wd.take_output();
+                wd.env.options.set(Interactive, Off);
+                l = std::mem::take(&mut wd.env.jobs);
+                if !matches!(line, Some(Ok(ref t)) if t == "echo\n") {
+                    doc = Some("prompt-input".into());
+                }
+                for (i, j) in before_list.iter() {
+                    if l.get(i) != Some(j) {
+                        doc = Some(format!("promptx-table:{i}"));
+                    }
+                }
+                if l.len() != before_list.len() || l.current_job() != before_list.current_job() || l.previous_job() != before_list.previous_job() {
+                    doc = Some("promptx-table:len".into());
+                }
+                enc_str(&stderr)
+            }
+            ["subjobs" | "subwait", args @ ..] => {
+                // `( jobs ARG… )` / `( wait ARG… )` through the shell's parser and a REAL subshell (a child process of the
+                // virtual system working on a copy of the environment in which `disown_all` has run)
+                if !args.iter().all(|a| safe_arg(a)) {
+                    return ("bad-case".into(), "-".into(), String::new());
+                }
+                let wd = world.get_or_insert_with(World::new);
+                let before_list = l.clone();
+                let src = format!("({} {})", if w[0] == "subjobs" { "jobs" } else { "wait" }, args.join(" "));
+                let list: yash_syntax::syntax::List = src.parse().unwrap();
+                wd.env.options.set(Monitor, Off);
+                wd.env.jobs = std::mem::take(&mut l);
+                let ran = wd.run_builtin(&mut |_| (), |env| {
+                    Box::pin(async move {
+                        let r = list.execute(env).await;
+                        yash_env::builtin::Result::with_exit_status_and_divert(env.exit_status, r)
+                    })
+                });
+                l = std::mem::take(&mut wd.env.jobs);
+                // the parent's table is not touched by anything the subshell does
+                if observe(&l, "", &pids) != observe(&before_list, "", &pids) {
+                    doc = Some("subshell-parent-table".into());
+                }
+                // docs/src/builtins/wait.md: "Subshells cannot wait for jobs in the parent shell environment": an
+                // operand that names a job of the parent gives 127 at best, never that job's exit status … checked
+                // through the model; here: a lone `%n` operand naming an existing job yields 127
+                if w[0] == "subwait" && args.len() == 1 && !ran.stuck {
+                    if let Some(Some(_)) = doc_simple(args[0], before_list.current_job(), before_list.previous_job(), &snapshot(&before_list)) {
+                        if ran.status != 127 {
+                            doc = Some("subshell-waits-for-parent-job".into());
+                        }
+                    }
+                }
+                show_ran(&ran)
+            }
             ["prompt", m, i] => {
                 // `Reporter::next_line` (input/reporter.rs): the report an interactive shell prints before it
                 // reads a line
@@ -1690,6 +1783,12 @@ fn alphabet2() -> Vec<String> {
         "ajs 101 S116 1 ab",
         "ajs 102 K2 1 abc",
         "rep1 1",
+        // final pass
+        "promptx 1 1",
+        "subjobs",
+        "subjobs -l",
+        "subwait %1",
+        "subwait",
     ]
     .iter()
     .map(|s| s.to_string())
@@ -1808,6 +1907,11 @@ fn random_mixed_op(r: &mut Rng, npids: usize) -> String {
                 }
                 format!("sync {}", if evs.is_empty() { "-".to_string() } else { evs.join(",") })
             }
+            1 if r.chance(1, 2) => match r.below(3) {
+                0 => format!("promptx {} {}", if r.chance(1, 6) { 0 } else { 1 }, if r.chance(1, 6) { 0 } else { 1 }),
+                1 => format!("subjobs {}", r.pick(&["", "-l", "-p", "%1", "%2", "%-", "%a", "%+ %-", "-l %3", "2"])).trim().to_string(),
+                _ => format!("subwait {}", r.pick(&["", "%1", "%2", "%-", "%%", "%ab", "%1 %2", "101", "%9"])).trim().to_string(),
+            },
             1 => format!("prompt {} {}", if r.chance(1, 6) { 0 } else { 1 }, if r.chance(1, 6) { 0 } else { 1 }),
             _ => {
                 let n = r.below(6);
